@@ -10,7 +10,7 @@
 From Coq Require Import NArith List Bool Arith.
 From DBG Require Import Spec.Dna Packed.KmerModel Packed.ExtsModel Packed.Blocks Packed.DnaStringModel Packed.SliceModel
   Packed.LmerModel Algo.Iter Algo.SeqHist Proofs.KmerDefaults Proofs.LmerProofs Proofs.IterProofs Proofs.DnaStringProofs
-  Proofs.IterBridge.
+  Proofs.IterBridge Proofs.IterBridgeObs.
 From DBG Require Packed.ExtsMini Algo.Filter.
 Import ListNotations.
 Open Scope N_scope.
@@ -117,3 +117,65 @@ Print Assumptions C05B_kmer_exts_short.
 Print Assumptions C05B_kmer_exts_exact.
 Print Assumptions C05B_kmer_exts_count.
 Print Assumptions C05B_dnastring_history_iter.
+
+(* ---- the observation list of filter_kmers from PACKED data, both strandedness settings.
+   [packed_observations c iter stranded reads] (Proofs/IterBridgeObs.v) follows filter.rs:192-200 on packed values: per read
+   the packed iterator [iter container exts]; per item (kmer, exts) - if stranded the pair itself, else
+   `let (k, flip) = kmer.min_rc_flip(); (k, if flip { exts.rc() } else { exts })` with Packed/KmerModel.min_rc_flip and
+   the full model's ExtsModel.e_rc; the k-mer is decoded at the end and the read's label attached; reads concatenated.
+   [None] = some call panics.  It never does, and the result is the list-level [Filter.observations]. *)
+Theorem C05B_packed_canon : forall c, In c shipped -> forall stranded it, item_wf c it ->
+  packed_canon c stranded it = Some (Filter.canon_obs stranded (decode (kK c) (fst it), snd it)).
+Proof. exact packed_canon_spec. Qed.
+(* generic in the container: [read_ok] is what each C05B_*_iter theorem above provides for one read *)
+Theorem C05B_observations_generic : forall D c, In c shipped ->
+  forall A (iter : A -> N -> option (list (N * N))) (abs : A -> dna) stranded (reads : list (A * N * D)),
+  Forall (fun r => exists items, iter (fst (fst r)) (snd (fst r)) = Some items /\ Forall (item_wf c) items /\
+                     map (fun it => (decode (kK c) (fst it), snd it)) items
+                     = Filter.kmer_exts (kK c) (abs (fst (fst r))) (snd (fst r))) reads ->
+  packed_observations c iter stranded reads =
+  Some (Filter.observations (kK c) stranded (map (fun r => (abs (fst (fst r)), snd (fst r), snd r)) reads)).
+Proof. exact @packed_observations_generic. Qed.
+(* reads as byte containers (DnaBytes / DnaSlice) *)
+Theorem C05B_observations_bytes : forall D c, In c shipped -> forall stranded (reads : list (dna * N * D)),
+  Forall (fun r => wf_dna (fst (fst r)) /\ snd (fst r) < 256) reads ->
+  packed_observations c (fun l e => iter_kmer_exts c (length l) (nth_opt l) (bytes_get_kmer c l) e) stranded reads
+  = Some (Filter.observations (kK c) stranded reads).
+Proof. exact @bytes_packed_observations. Qed.
+(* reads as DnaStrings *)
+Theorem C05B_observations_dnastring : forall D c, In c shipped -> forall stranded (reads : list (dstr * N * D)),
+  Forall (fun r => d_inv (fst (fst r)) /\ snd (fst r) < 256) reads ->
+  packed_observations c (fun s e => iter_kmer_exts c (d_len s) (d_get s) (d_get_kmer c s) e) stranded reads
+  = Some (Filter.observations (kK c) stranded (map (fun r => (d_abs (fst (fst r)), snd (fst r), snd r)) reads)).
+Proof. exact @dnastring_packed_observations. Qed.
+
+(* composed with C05_filter_spec: filter_kmers at the K (>= 4) of a shipped k-mer type = the reference grouping of the
+   packed observations *)
+Theorem C05B_filter_kmers_packed : forall D DS (summarize : list (@Filter.obs D) -> bool * N * DS) report_all
+    c stranded size_of memory_size unit (reads : list (dna * N * D)),
+  In c shipped -> (4 <= kK c)%nat -> 1 <= memory_size * Filter.eff_unit unit ->
+  Forall (fun r => wf_dna (fst (fst r)) /\ snd (fst r) < 256) reads ->
+  exists os passes,
+    packed_observations c (fun l e => iter_kmer_exts c (length l) (nth_opt l) (bytes_get_kmer c l) e) stranded reads = Some os /\
+    Filter.filter_kmers summarize report_all (kK c) stranded size_of memory_size unit reads
+      = Some (Filter.reference_obs summarize report_all os, passes).
+Proof. exact @filter_kmers_of_packed_observations. Qed.
+
+(* non-vacuity: K = 5 on u16, three labelled reads: the 9-base read; a read whose k-mers are all flipped by
+   canonicalisation (so Exts::rc acts on every byte); a read shorter than K.  Unstranded and stranded. *)
+Definition C05B_reads : list (dna * N * N) := [(C05B_read, 0x21, 7); ([3; 3; 2; 3; 1; 3], 0x48, 8); ([1; 2], 0xff, 9)].
+Example C05B_observations_nonvacuous :
+  Forall (fun r => wf_dna (fst (fst r)) /\ snd (fst r) < 256) C05B_reads /\
+  (let it := fun l e => iter_kmer_exts (mkc 16 5) (length l) (nth_opt l) (bytes_get_kmer (mkc 16 5) l) e in
+   packed_observations (mkc 16 5) it false C05B_reads = Some (Filter.observations 5 false C05B_reads) /\
+   packed_observations (mkc 16 5) it true C05B_reads = Some (Filter.observations 5 true C05B_reads)) /\
+  length (Filter.observations 5 false C05B_reads) = 7%nat /\
+  nth 5 (Filter.observations 5 false C05B_reads) ([], 0, 0) = ([2; 0; 1; 0; 0], 0x11, 8) /\
+  nth 5 (Filter.observations 5 true C05B_reads) ([], 0, 0) = ([3; 3; 2; 3; 1], 0x88, 8).
+Proof. vm_compute. repeat split; try reflexivity; repeat constructor. Qed.
+
+Print Assumptions C05B_packed_canon.
+Print Assumptions C05B_observations_generic.
+Print Assumptions C05B_observations_bytes.
+Print Assumptions C05B_observations_dnastring.
+Print Assumptions C05B_filter_kmers_packed.
